@@ -175,6 +175,10 @@ def targets(ctx):
             # occurrences of a message field are merged / the last one wins - the same value either way); whatever the
             # later occurrence carries that the older reader does not know must survive
             recs2 = []
+            try:
+                seen_before = norm(schema, mi, snap_ref(schema, mi, c.ref.cls(mi.full_name).FromString(b)))
+            except Exception:  # noqa: BLE001 - what betterproto wrote is already unreadable: reported by the clauses below
+                seen_before = None
             for r_ in wire.parse_records(b):
                 f_ = mi.by_number(r_.number)
                 if f_ is not None and f_.card in ("single", "optional") and f_.type == "message" and f_.wkt is None and r_.wt == 2:
@@ -182,7 +186,8 @@ def targets(ctx):
                     info["dup_done"] = info.get("dup_done", 0) + 1
                 recs2.append(r_)
             b = b"".join(x.raw for x in recs2)
-            if norm(schema, mi, snap_ref(schema, mi, c.ref.cls(mi.full_name).FromString(b))) != want:
+            # soundness of the transformation itself: the reference reads the same value before and after it
+            if seen_before is not None and norm(schema, mi, snap_ref(schema, mi, c.ref.cls(mi.full_name).FromString(b))) != seen_before:
                 raise RuntimeError("reference disagrees on a duplicated sub-message occurrence (harness)")
         Old = make_older(cls, drop_top, nested_drops)
         old = guard("parse_old", decode_via, Old(), b, entry)
